@@ -124,6 +124,13 @@ static std::string opChi2(const Toks& t) {
   if (kind == "pickwc") {
     std::vector<size_t> v(k); std::iota(v.begin(), v.end(), 0);
     for (size_t i = 0; i < N; ++i) hit(RandomTools::pickOne(const_cast<const std::vector<size_t>&>(v), const_cast<const std::vector<double>&>(w)));
+  } else if (kind == "coin") {
+    // flipCoin(p) with p = w[0] / (w[0] + w[1]): cell 0 = true, cell 1 = false
+    double pr = w[0] / (w[0] + w[1]);
+    for (size_t i = 0; i < N; ++i) hit(RandomTools::flipCoin(pr) ? 0 : 1);
+  } else if (kind == "uint") {
+    // giveIntRandomNumberBetweenZeroAndEntry(k): uniform on 0..k-1
+    for (size_t i = 0; i < N; ++i) hit(RandomTools::giveIntRandomNumberBetweenZeroAndEntry<size_t>(k));
   } else if (kind == "pick1c") {
     std::vector<size_t> v(k); std::iota(v.begin(), v.end(), 0);
     for (size_t i = 0; i < N; ++i) hit(RandomTools::pickOne(const_cast<const std::vector<size_t>&>(v)));
